@@ -19,7 +19,7 @@ MANIFEST_ENTRY = {
   "text": "Theorems in coq/Properties/C10.v (truth-table clauses of C10): the falsy sets extracted separately from is_true_value, jump_if_true and jump_if_false (coq/Gen/Truth.v, regenerated from /repo on every run) each equal the pinned coq/Spec/Falsy.v = {Unit, False}; each of the seven testing constructs ?> !> && || ^^ !! ??, run as one step of the type-level model coq/Model/OpDispatch.v (which reads the generated falsy sets and the generated shapes of and/or/xor/not/tis), classifies a value of each of the 21 types (any inner type, any host mode) as true iff its type is not Unit/False; ^^ is the exclusive or of the two truth values; && || ^^ !! ?? never call the host and whatever they push is True or False. Finite domain (7 x 101 x 101 x 3), proved by vm_compute + enumeration completeness. The model is tied to the runtime by running every construct on every representative value of every type on both data implementations and diffing, and the spec's truth value is compared directly with what each construct did. Short-circuit and one-arm clauses (program level) are in separate files when present.",
   "design_ref": "DESIGN.md section 8 C10 (a),(b)"
  },
- "level_note": "Partial: only the truth-table clauses are claimed by this file; `&&`/`||` producing a boolean at PROGRAM level additionally needs the compiler fact that the out-of-line right operand ends in Tis, and short-circuit / one-arm need the compiler+evaluator model (Properties/C10_*.v, other component). Trusted: Coq kernel; translator tools/sync/dispatch.py (falsy sets and logical-operator shapes are recognised syntactically, anything else raises); the harness; the Python reading of what each construct's observable behaviour means.",
+ "level_note": "The truth-table clauses are claimed by this file; the program-level clauses are the theorems of coq/Properties/C10_programs.v (built by this check as an extra target; their Print Assumptions are checked centrally) and the program stage of tools/props/c01.py (c10_program_checks), both owned by the compiler/evaluator component and run from here when present. Without them: `&&`/`||` producing a boolean at PROGRAM level additionally needs the compiler fact that the out-of-line right operand ends in Tis, and short-circuit / one-arm need the compiler+evaluator model (Properties/C10_*.v, other component). Trusted: Coq kernel; translator tools/sync/dispatch.py (falsy sets and logical-operator shapes are recognised syntactically, anything else raises); the harness; the Python reading of what each construct's observable behaviour means.",
  "technique": "Coq finite proof by computation over regenerated falsy sets + exhaustive construct x type differential run + direct truth-table oracle"
 }
 TRUSTED = vplib.BASE_TRUSTED + [
@@ -136,6 +136,33 @@ def evaluate(v, recs, stats, samples):
     return len(distinct)
 
 
+def program_stage(v, tier, seed):
+    """short-circuit / one-arm clauses over whole programs, run by the component that owns the
+    compiler + evaluator model.  -> its stats dict, or None when it is not there."""
+    try:
+        if importlib.util.find_spec("props.c10_programs") is not None:
+            return importlib.import_module("props.c10_programs").stage(v, tier, seed)
+        c01 = importlib.import_module("props.c01") if importlib.util.find_spec("props.c01") is not None else None
+        if c01 is None or not hasattr(c01, "c10_program_checks"):
+            v.notes.append("short-circuit / one-arm clauses: no program-level stage available; not checked by this run")
+            return None
+        okx, outx = vplib.coq_make(["Extract/ExecExtract.vo"])
+        if not okx:
+            v.tie_failure("program stage: extraction of the exec model failed: " + " | ".join(outx.strip().splitlines()[-3:])[:300])
+        okc, outc = vplib.cargo_build("debug", bins=["exec"])
+        if not okc:
+            v.tie_failure("program stage: exec harness build failed: " + outc[-300:])
+        okm, outm = vplib.ocaml_build("exec") if os.path.exists(os.path.join(vplib.OCAML_BUILD, "exec_model.ml")) else (False, "no extracted exec model")
+        if not okm:
+            v.tie_failure("program stage: exec driver build failed: " + outm[-300:])
+        if not (okc and okm):
+            return None
+        return c01.c10_program_checks(v, tier, seed)
+    except Exception as e:
+        v.tie_failure("program stage failed: %s: %s" % (type(e).__name__, e))
+        return None
+
+
 def run(tier, seed):
     v = Verdict(PID, tier, seed)
     v.assumptions = [
@@ -175,14 +202,9 @@ def run(tier, seed):
             v.tie_failure("matrix run: " + err)
         if recs is not None:
             distinct = evaluate(v, recs, stats, samples)
-    # program-level clauses (short circuit, one arm): other component, optional
-    if importlib.util.find_spec("props.c10_programs") is not None:
-        try:
-            importlib.import_module("props.c10_programs").stage(v, tier, seed)
-        except Exception as e:
-            v.tie_failure("c10_programs stage failed: %s: %s" % (type(e).__name__, e))
-    else:
-        v.notes.append("short-circuit / one-arm clauses: no tools/props/c10_programs.py yet; not checked by this run")
+    # program-level clauses (short circuit, one arm, chain order; `&&`/`||` boolean at program level):
+    # the compiler + evaluator component (tools/props/c01.py, coq/Properties/C10_programs.v)
+    prog_stats = program_stage(v, tier, seed)
     v.coverage.update({
         "evaluations": len(cases),
         "distinct_nontrivial": distinct,
@@ -194,6 +216,7 @@ def run(tier, seed):
         "histogram": dict(stats),
         "regenerated_tables": sy["changed"],
         "extra_property_files": extra,
+        "program_level_stage": prog_stats,
     })
     return v.finish("proof")
 
